@@ -48,7 +48,12 @@ def grammar_text(case, static):
     if sign:
         sign_rule = "Sign: tilde%s | EMPTY%s;\n" % (" {dynamic}" if sign == 3 else "", " {dynamic}" if sign >= 2 else "")
         terms.append("tilde: '~';")
-    return "E: %s;\n%sterminals\n%s\natom: 'n';\n" % (" | ".join(alts), sign_rule, "\n".join(terms))
+    layout = ""
+    if case.get("layout_rule"):
+        # a LAYOUT rule equivalent to the default ws: the filter belongs to the main parser only
+        layout = "LAYOUT: LI | LAYOUT LI | EMPTY;\nLI: WS;\n"
+        terms.append("WS: /\\s+/;")
+    return "E: %s;\n%s%sterminals\n%s\natom: 'n';\n" % (" | ".join(alts), sign_rule, layout, "\n".join(terms))
 
 
 def classify(prod):
@@ -500,7 +505,10 @@ def span_grammar(case, marked=True):
     tpl = SPAN_TEMPLATES[case["template"] % len(SPAN_TEMPLATES)]
     n = tpl.count("{")
     marks = [(" {dynamic}" if marked and (case["marks"] >> i) & 1 else "") for i in range(n)]
-    return tpl.format(*marks)
+    text = tpl.format(*marks)
+    if case.get("layout_rule"):
+        text = text.replace("terminals\n", "LAYOUT: LI | LAYOUT LI | EMPTY;\nLI: WS;\nterminals\nWS: /\\s+/;\n", 1)
+    return text
 
 
 def prod_name(p):
@@ -661,6 +669,14 @@ def run_span(case, ctx):
                 if taken:
                     ctx.fail("rejected-action-was-taken", parser="LR", tree=repr(t)[:300],
                              rejected=repr(sorted(taken))[:200], **info)
+                # ... and a non-empty reduction the filter accepted was performed (LR never backtracks, so a
+                # performed reduction is a node of the result; an accepted EMPTY reduction may lose against a
+                # shift, which LR prefers)
+                accepted = {k for k, d in keys if d and k[0] == "reduce" and not k[1].endswith(": EMPTY")}
+                dropped = accepted - set(decisions_of_tree(t))
+                if dropped:
+                    ctx.fail("accepted-action-was-not-taken", parser="LR", tree=repr(t)[:300],
+                             accepted=repr(sorted(dropped))[:200], **info)
                 ctx.label("lr-trees-checked")
                 if rejected:
                     ctx.label("lr-trees-checked-after-a-rejection")
@@ -695,6 +711,7 @@ def strat_span(tier):
                 "marks": 0x3ff if full else draw(st.integers(1, 0x3ff)),
                 # mostly-accepting masks: union of two draws
                 "mask": draw(st.integers(0, 2 ** 64 - 1)) | draw(st.integers(0, 2 ** 64 - 1)),
+                "layout_rule": draw(st.integers(0, 3)) == 0,
                 "max_len": draw(st.sampled_from([4, 4, 5]))}
     return c()
 
@@ -714,6 +731,7 @@ def cases(draw):
             "mark_term": draw(st.lists(st.booleans(), min_size=k, max_size=k)),
             "mark_atom": draw(st.integers(0, 2)) == 0,
             "sign": draw(st.sampled_from([0, 0, 1, 2, 2, 3])), "sign_bits": draw(st.integers(1, 255)),
+            "layout_rule": draw(st.integers(0, 3)) == 0,
             "filter": draw(st.sampled_from(["accept-all", "reject", "precedence"])),
             "reject": draw(st.integers(0, 5)),
             "long": draw(st.lists(st.lists(st.integers(0, 5), min_size=4, max_size=4), max_size=3))}
